@@ -116,6 +116,79 @@ def wb_contract(cfg):
     return c
 
 
+def wb_proof_contract(cfg):
+    """equal bus widths (the bridge's own FSM, no converter): by induction, for all master behaviour incl. aborts at any
+    cycle and all port timings: one native command per access carrying adr-offset / we; an acknowledged write handed the
+    port exactly dat_w / sel of that access; an aborted write completes its data phase with every byte masked and without
+    ack; an acknowledged read returns the port's word for the command of that access; ack only for the pending access"""
+    from vc.shims import capture_locals
+    ww = cfg.get("width", 16)
+    base = cfg.get("base", 0)
+
+    class H(Module):
+        def __init__(self):
+            self.wbus = wb.Interface(data_width=ww, adr_width=cfg.get("adr_width", 6), addressing="word")
+            self.port = LiteDRAMNativePort("both", cfg.get("adr_width", 6), ww)
+            with capture_locals(LiteDRAMWishbone2Native.__init__) as cap:
+                self.submodules.br = LiteDRAMWishbone2Native(self.wbus, self.port, base_address=base)
+            self.L = cap.of(self.br)
+    h = H()
+    w, port, br, L = h.wbus, h.port, h.br, h.L
+    fsm, aborted = br.fsm, L["aborted"]
+    free = [w.cyc, w.stb, w.we, w.adr, w.sel, w.dat_w, w.cti, w.bte, port.cmd.ready, port.wdata.ready, port.rdata.valid, port.rdata.data]
+    c = Contract("Wishbone2Native.logic", h, free, cfg=cfg)
+    st = lambda f, *n: state_is(f, fsm, *n)
+    req = lambda f: And(f.b(w.cyc), f.b(w.stb))
+    ack = lambda f: f.b(w.ack)
+    aw, paw = len(w.adr), len(port.cmd.addr)
+    off = base >> log2_int(ww // 8)
+    # master
+    c.ghost("pend", "bool", False, lambda f: And(req(f), Not(ack(f))))
+    for nm, sig in (("we", w.we), ("adr", w.adr), ("sel", w.sel), ("dat", w.dat_w)):
+        c.ghost("p_" + nm, len(sig), 0, lambda f, sig=sig: f(sig))
+    c.assume("wbm.stb_implies_cyc", lambda f: Implies(f.b(w.stb), f.b(w.cyc)))
+    c.assume("wbm.pending_access_held_or_aborted", lambda f: Implies(f.g.pend, Or(Not(f.b(w.cyc)), And(
+        req(f), f(w.we) == f.g.p_we, f(w.adr) == f.g.p_adr, f(w.sel) == f.g.p_sel, f(w.dat_w) == f.g.p_dat))))
+    # native port guarantees
+    cacc = lambda f: And(f.b(port.cmd.valid), f.b(port.cmd.ready))
+    wtk = lambda f: And(f.b(port.wdata.valid), f.b(port.wdata.ready))
+    c.ghost("outst", 4, 0, lambda f: f.g.outst + If_(And(cacc(f), Not(f.b(port.cmd.we))), BV(1, 4), BV(0, 4)) - If_(f.b(port.rdata.valid), BV(1, 4), BV(0, 4)))
+    c.ghost("wpend", 4, 0, lambda f: f.g.wpend + If_(And(cacc(f), f.b(port.cmd.we)), BV(1, 4), BV(0, 4)) - If_(wtk(f), BV(1, 4), BV(0, 4)))
+    c.assume("port.read_data_only_for_an_outstanding_read", lambda f: Implies(f.b(port.rdata.valid), f.g.outst != 0))
+    c.assume("port.write_strobe_only_for_an_accepted_write", lambda f: Implies(f.b(port.wdata.ready), f.g.wpend != 0))
+    # the access whose command has been issued
+    c.ghost("l_adr", aw, 0, lambda f: If_(cacc(f), f(w.adr), f.g.l_adr))
+    c.ghost("l_we", 1, 0, lambda f: If_(cacc(f), f(w.we), f.g.l_we))
+    live = lambda f: And(f.b(w.cyc), Not(f.b(aborted)))                 # the master has not given up on that access
+    c.invariant("state_in_range", lambda f: state_in_range(f, fsm))
+    c.invariant("one_access_in_flight", lambda f: And(
+        Implies(st(f, "CMD"), And(f.g.outst == 0, f.g.wpend == 0)),
+        Implies(st(f, "WRITE"), And(f.g.outst == 0, f.g.wpend == 1, f.g.l_we == 1)),
+        Implies(st(f, "READ"), And(f.g.outst == 1, f.g.wpend == 0, f.g.l_we == 0))))
+    c.invariant("unaborted_access_is_still_the_one_whose_command_was_issued", lambda f: Implies(
+        And(st(f, "WRITE", "READ"), Not(f.b(aborted))), And(f.g.pend, f.g.p_adr == f.g.l_adr, f.g.p_we == f.g.l_we)))
+    c.ensures("one_command_per_access_with_its_address_and_direction", lambda f: And(
+        f.b(port.cmd.valid) == And(st(f, "CMD"), req(f)),
+        Implies(f.b(port.cmd.valid), And(f(port.cmd.addr) == z3.Extract(paw - 1, 0, zext(f(w.adr), max(aw, paw)) - BV(off, max(aw, paw))),
+                                         f.b(port.cmd.we) == f.b(w.we)))))
+    c.ensures("ack_only_for_the_pending_access_after_its_data_phase", lambda f: Implies(ack(f), And(
+        req(f), f.g.pend, f(w.adr) == f.g.l_adr, f(w.we) == f.g.l_we,
+        Or(And(st(f, "WRITE"), wtk(f)), And(st(f, "READ"), f.b(port.rdata.valid))))))
+    c.ensures("acknowledged_write_handed_over_its_own_data_and_selects", lambda f: Implies(
+        And(ack(f), st(f, "WRITE")), And(f(port.wdata.data) == f(w.dat_w), f(port.wdata.we) == f(w.sel))))
+    c.ensures("live_write_data_phase_presents_the_masters_data", lambda f: Implies(
+        And(st(f, "WRITE"), live(f), f.b(port.wdata.valid)), And(f(port.wdata.data) == f(w.dat_w), f(port.wdata.we) == f(w.sel), req(f))))
+    c.ensures("aborted_write_completes_with_every_byte_masked_and_no_ack", lambda f: Implies(
+        And(st(f, "WRITE"), Not(live(f))), And(f.b(port.wdata.valid), f(port.wdata.we) == 0, Not(ack(f)))))
+    c.ensures("acknowledged_read_returns_the_port_word", lambda f: Implies(
+        And(ack(f), st(f, "READ")), f(w.dat_r) == f(port.rdata.data)))
+    c.ensures("aborted_read_is_not_acknowledged", lambda f: Implies(And(st(f, "READ"), Not(live(f))), Not(ack(f))))
+    c.ensures("no_write_data_offered_outside_the_data_phase", lambda f: Implies(f.b(port.wdata.valid), st(f, "WRITE")))
+    c.cover("write_then_read_acknowledged", lambda f: And(ack(f), st(f, "READ")), within=10)
+    c.cover("aborted_write_drained", lambda f: And(st(f, "WRITE"), f.b(aborted), wtk(f)), within=10)
+    return c
+
+
 class RevHarness(Module):
     def __init__(self, cfg):
         self.port = LiteDRAMNativePort("both", 8, 16)
@@ -165,6 +238,8 @@ def tasks(tier):
         cfg = dict(cfg, depth=d, adr_width=4)
         out.append(dict(fn="wb_contract", cfg=cfg, modes=["bounded", "cover", "difftest"], depth=d, weight=20,
                         timeout_ms=1500000, difftest_cycles=60))
+    for cfg in (dict(width=16), dict(width=32, base=0x40)):
+        out.append(dict(fn="wb_proof_contract", cfg=cfg, modes=["inductive", "cover", "difftest"], weight=2, difftest_cycles=80))
     for cfg in (dict(), dict(base=0x40)):
         out.append(dict(fn="reverse_contract", cfg=cfg, modes=["inductive", "cover", "difftest"], weight=1))
     return out
